@@ -41,7 +41,7 @@ const m = time.Minute
 var table = map[string]cfg{
 	"C01": {quick: 3000, thorough: 40000, shards: 16, quickTO: 4 * m, thorTO: 25 * m, fuzz: []string{"FuzzC01"}, fuzzTime: 90 * time.Second},
 	"C02": {quick: 4000, thorough: 80000, shards: 16, quickTO: 4 * m, thorTO: 25 * m},
-	"C03": {quick: 2500, thorough: 9000, shards: 16, quickTO: 4 * m, thorTO: 25 * m},
+	"C03": {quick: 2000, thorough: 9000, shards: 16, quickTO: 4 * m, thorTO: 25 * m},
 	"C04": {quick: 4000, thorough: 60000, shards: 16, quickTO: 4 * m, thorTO: 30 * m},
 	"C05": {quick: 3000, thorough: 45000, shards: 16, quickTO: 4 * m, thorTO: 30 * m},
 	"C06": {quick: 2000, thorough: 8000, shards: 16, quickTO: 5 * m, thorTO: 30 * m, race: true},
@@ -50,7 +50,7 @@ var table = map[string]cfg{
 	"C09": {quick: 4000, thorough: 25000, shards: 16, quickTO: 4 * m, thorTO: 25 * m},
 	"C10": {quick: 4000, thorough: 80000, shards: 16, quickTO: 4 * m, thorTO: 25 * m},
 	"C11": {quick: 4000, thorough: 40000, shards: 16, quickTO: 4 * m, thorTO: 25 * m},
-	"C12": {quick: 1200, thorough: 2500, shards: 16, quickTO: 4 * m, thorTO: 25 * m},
+	"C12": {quick: 900, thorough: 2500, shards: 16, quickTO: 4 * m, thorTO: 25 * m},
 	"C13": {quick: 60, thorough: 100, shards: 16, quickTO: 6 * m, thorTO: 40 * m, race: true},
 	"C14": {quick: 3000, thorough: 30000, shards: 16, quickTO: 4 * m, thorTO: 25 * m},
 	"C15": {quick: 2500, thorough: 100000, shards: 16, quickTO: 4 * m, thorTO: 30 * m},
